@@ -702,6 +702,51 @@ fn check_depth_prepass(scene: &Scene, scene_id: u64, r: &mut Report) {
 
 /// The first clause under the library's orthographic projection: overlapping triangles at different view depths, projected with
 /// orthographic(), in both submission orders - each pixel of the overlap ends with the nearer one.
+/// Nearest-fragment clause at scale, judged by the independent f64 reference instead of solo renders (which share any
+/// interpolation error with the joint render): two coincident tall triangles in strong perspective (1/w from 8 at the
+/// apex to 0.002 along edges several hundred rows long), the second 1.5 % farther everywhere; in both submission orders
+/// every unambiguous interior pixel must end with the nearer one.
+fn check_tall_perspective(i: u64, r: &mut Report) {
+    r.eval();
+    let h = [600u32, 1000][(i % 2) as usize];
+    let (sx, sy) = (if i / 2 % 2 == 0 { 1.0f32 } else { -1.0 }, if i / 4 % 2 == 0 { 1.0f32 } else { -1.0 });
+    let door = [Door::Render, Door::Batch][(i / 8 % 2) as usize];
+    let ndc = [[-0.8f32 * sx, -0.98 * sy], [-0.8 * sx, 0.98 * sy], [0.8 * sx, 0.98 * sy]];
+    let ws = [0.125f32, 500.0, 500.0];
+    let mk = |s: f32, a: [f32; 3]| STri { v: std::array::from_fn(|k| [ndc[k][0] * ws[k] * s, ndc[k][1] * ws[k] * s, 0.0, ws[k] * s]), a };
+    // the rival: i < 16: the same triangle 1.5 % farther; otherwise a constant-depth triangle over the same footprint whose
+    // 1/w is aimed 0.5 % or 1 % below or above the tall triangle's smallest 1/w at an interior pixel centre (f64 reference)
+    let rival = if i < 16 { mk(1.015, [0.7, 0.8, 0.9]) } else {
+        let solo = Scene { tris: vec![mk(1.0, [0.1, 0.2, 0.3])], bw: 8, bh: h, vp: (0, 0, 8, h) };
+        let so = Oracle::new(&solo);
+        let mut least = f64::MAX;
+        for j in 0..h { for x in 0..8u32 { if let Truth::Inside { invw, .. } = so.pixel(x, j) { least = least.min(invw); } } }
+        let wc = (1.0 / (least * [0.995f64, 1.005, 0.99, 1.01][(i / 16 - 1) as usize % 4])) as f32;
+        STri { v: std::array::from_fn(|k| [ndc[k][0] * wc, ndc[k][1] * wc, 0.0, wc]), a: [0.7, 0.8, 0.9] } };
+    let sc = Scene { tris: vec![mk(1.0, [0.1, 0.2, 0.3]), rival], bw: 8, bh: h, vp: (0, 0, 8, h) };
+    let case = || obj! {"kind" => "tall-perspective", "i" => i};
+    let tag = format!("{h} rows|rival {}|apex {}{}|{door:?}", i / 16, if sy > 0.0 { "first" } else { "last" }, if sx > 0.0 { " left" } else { " right" });
+    let orc = Oracle::new(&sc);
+    let mut judged = 0;
+    for order in [[0usize, 1], [1, 0]] {
+        let out = match render_scene(&sc, Some(&order), door, TargetKind::Owned, &ctx_plain(), Discard::Never, None) { Ok(o) => o, Err(p) => { r.violation(format!("render-panic|tall-perspective|{tag}"), p, case()); return; } };
+        for j in 0..h { for x in 0..8u32 {
+            if let Truth::Inside { tri, .. } = orc.pixel(x, j) {
+                let idx = (j * 8 + x) as usize;
+                if out.color[idx] == color_sentinel(idx) { continue; } // coverage is C01's business
+                judged += 1;
+                let got = unpack(out.color[idx]);
+                // judged where the two surfaces are at least 0.3 % apart in the f64 reference (the statement's tie band is 0.1 %)
+                let (cands, _) = candidates(&sc, x as f64 + 0.5, j as f64 + 0.5);
+                if cands.len() == 2 && (cands[0].2 - cands[1].2).abs() < 0.003 * cands[0].2.max(cands[1].2) { judged -= 1; continue; }
+                if cands.len() == 2 && tri == 1 && got < 0.5 { r.violation(format!("nearest|tall-perspective|rival {}|{tag}|order {order:?}", i / 16), format!("pixel ({x},{j}): the tall triangle won (attribute {got}) although the constant-depth one is more than 0.3 % nearer there, order {order:?}"), case()); return; }
+                if tri == 0 && got > 0.5 { r.violation(format!("nearest|tall-perspective|{tag}|order {order:?}"), format!("pixel ({x},{j}): the triangle 1.5 % farther away won (attribute {got}) when submitted in order {order:?}"), case()); return; }
+            }
+        }}
+    }
+    if judged > 0 { r.nontrivial(); }
+}
+
 fn check_ortho_depth(i: u64, r: &mut Report) {
     r.eval();
     let m = orthographic(pt3(-1.0, -1.0, 1.0), pt3(1.0, 1.0, 10.0));
@@ -889,6 +934,7 @@ fn run_order(cfg: &Cfg) -> ! {
     rep.merge(par_range(cfg, (np * np) as u64, |i, r| { let (a, b) = ((i as usize) % np, (i as usize) / np); if a != b { check_masked_occluder(&pool[a], &pool[b], (a, b), r); } }));
     rep.merge(par_range(cfg, 640, check_order_ulp));
     rep.merge(par_range(cfg, 12, check_ortho_depth));
+    rep.merge(par_range(cfg, 80, check_tall_perspective));
     rep.merge(par_range(cfg, 5, |i, r| check_painter_scale([300usize, 1024, 1025, 2100, 3001][i as usize], r)));
     {
         let fp = far_pool();
@@ -1414,6 +1460,7 @@ fn main() {
                 "calls-at-scale" => check_calls_at_scale(r),
                 "masked-occluder" => { let pool = order_pool(); check_masked_occluder(&pool[c.get("a").unwrap().as_u64().unwrap() as usize], &pool[c.get("b").unwrap().as_u64().unwrap() as usize], (c.get("a").unwrap().as_u64().unwrap() as usize, c.get("b").unwrap().as_u64().unwrap() as usize), r) }
                 "painter-scale" => check_painter_scale(c.get("n").unwrap().as_u64().unwrap() as usize, r),
+                "tall-perspective" => check_tall_perspective(c.get("i").unwrap().as_u64().unwrap(), r),
                 "order-ulp" => check_order_ulp(c.get("i").unwrap().as_u64().unwrap(), r),
                 "safety-camera" => {
                     let f: Vec<f32> = c.get("verts").unwrap().as_arr().unwrap().iter().map(|x| parse_fbits(x).unwrap()).collect();
